@@ -408,7 +408,8 @@ func genOperand(r *lib.Rand, op string, which byte) Operand {
 			return Operand{[]string{"{}", "{10, 20, 30}", `{10, 20, x = "xv", y = "yv"}`, `{x = 1}`, `setmetatable({5, 6, z = 7}, MT1)`}[r.Intn(5)]}
 		}
 		if which == 'K' {
-			return Operand{[]string{"nil", "1", "2", "3", `"x"`, `"y"`, `"z"`}[r.Intn(7)]}
+			// keys of the table, and keys that are not in it (Lua 5.1: "invalid key to 'next'"; whatever next() does, L.Next must do)
+			return Operand{[]string{"nil", "1", "2", "3", `"x"`, `"y"`, `"z"`, `"zzz"`, "7", "2.5", "0", "true"}[r.Intn(12)]}
 		}
 	case "objlen":
 		if which == 'A' {
@@ -478,4 +479,83 @@ func genObj(r *lib.Rand) ObjIn {
 		}
 	}
 	return in
+}
+
+/* ---------- the globals table after it has been replaced (setfenv(0, t) / Replace(GlobalsIndex, t)) ---------- */
+
+// GenvIn: GetGlobal/SetGlobal must address the table a newly loaded chunk sees as its globals.
+type GenvIn struct {
+	Kind   string `json:"kind"`   // "genv"
+	How    string `json:"how"`    // setfenv0 | replace | thread-setfenv0 | none
+	V      string `json:"v"`      // Lua expression of the value stored
+	Shadow bool   `json:"shadow"` // the new table redefines GDEF
+}
+
+func runGenv(w *lib.Writer, in GenvIn, class string) {
+	L0 := lua.NewState()
+	defer L0.Close()
+	L := L0
+	fail := ""
+	do := func(L *lua.LState, src string) lua.LValue {
+		top := L.GetTop()
+		if err := L.DoString(src); err != nil {
+			s := err.Error()
+			if len(s) > 160 {
+				s = s[:160]
+			}
+			fail = "chunk failed: " + s
+			return lua.LNil
+		}
+		v := L.Get(top + 1)
+		L.SetTop(top)
+		return v
+	}
+	do(L, `GDEF = "old" GOLD = "only-old"`)
+	shadow := ""
+	if in.Shadow {
+		shadow = `GDEF = "sandbox"`
+	}
+	switch in.How {
+	case "setfenv0":
+		do(L, `setfenv(0, setmetatable({`+shadow+`}, { __index = _G }))`)
+	case "replace":
+		tb := do(L, `return setmetatable({`+shadow+`}, { __index = _G })`)
+		L.Replace(lua.GlobalsIndex, tb)
+	case "thread-setfenv0":
+		th, _ := L.NewThread()
+		L = th
+		do(L, `setfenv(0, setmetatable({`+shadow+`}, { __index = _G }))`)
+	}
+	e := objEnc{L}
+	v := do(L, "return "+in.V)
+	var api, lu []string
+	// reads
+	api = append(api, "get:"+e.val(L.GetGlobal("GDEF")), "get:"+e.val(L.GetGlobal("GOLD")), "get:"+e.val(L.GetGlobal("GNONE")))
+	lu = append(lu, "get:"+e.val(do(L, "return GDEF")), "get:"+e.val(do(L, "return GOLD")), "get:"+e.val(do(L, "return GNONE")))
+	// a write through the API is seen by a chunk, a write by a chunk is seen through the API
+	L.SetGlobal("GAPI", v)
+	api = append(api, "set:"+e.val(do(L, "return GAPI")))
+	do(L, "GLUA = "+in.V)
+	lu = append(lu, "set:"+e.val(L.GetGlobal("GLUA")))
+	// the API's globals table is the chunk's: rawequal(getfenv(0), <Get(GlobalsIndex)>)
+	L.SetGlobal("GTAB", L.Get(lua.GlobalsIndex))
+	api = append(api, "same:"+e.val(do(L, "return rawequal(getfenv(0), GTAB)")))
+	lu = append(lu, "same:true")
+	toZ := func(ss []string) string {
+		zs := make([]int64, len(ss))
+		for i, s := range ss {
+			zs[i] = hashZ(s)
+		}
+		return lib.CoqZList(zs)
+	}
+	id := w.Add(lib.Case{Input: in, Observed: map[string]any{"api": api, "lua": lu}, Class: class, Nontrivial: in.How != "none",
+		Coq: fmt.Sprintf("CObj 98 %s %s", toZ(api), toZ(lu))})
+	if fail != "" {
+		w.GoFail(id, fail)
+	}
+}
+
+func genGenv(r *lib.Rand) GenvIn {
+	return GenvIn{Kind: "genv", How: []string{"setfenv0", "replace", "thread-setfenv0", "none"}[r.Intn(4)],
+		V: []string{"5", `"str"`, "true", "{}", "2.5", "print"}[r.Intn(6)], Shadow: r.Chance(70)}
 }
